@@ -654,6 +654,12 @@ void QXmppOutgoingClient::handleStream(const QDomElement &streamElement)
         // no version specified, signals XMPP Version < 1.0.
         // switch to old auth mechanism if enabled
         if (d->streamVersion.isEmpty() && configuration().useNonSASLAuthentication()) {
+            // such servers do not send stream features, so STARTTLS can't be negotiated
+            if (configuration().streamSecurityMode() == QXmppConfiguration::TLSRequired && !socket()->isEncrypted()) {
+                warning(u"TLS is required, but the server does not support XMPP 1.0 (no STARTTLS possible)"_s);
+                disconnectFromHost();
+                return;
+            }
             startNonSaslAuth();
         }
     }
